@@ -157,6 +157,27 @@ func c08Property(t *rapid.T) {
 				}
 				b.txs = append(b.txs, &txSpec{tx: tx, kind: "badsig", desc: desc, victim: true})
 			}
+			// ... and IBTPs whose proof does not verify, some of them with a bad signature as well: a transaction can be
+			// rejected by the signature check and by the proof check of the same block
+			if rapid.Bool().Draw(t, "stormIBTPs") {
+				m := rapid.IntRange(2, 12).Draw(t, "stormIBTPCount")
+				for i := 0; i < m; i++ {
+					pr := g.pairs[i%len(g.pairs)]
+					proof := []byte("1")
+					ib := &pb.IBTP{From: pr.from, To: pr.to, Index: uint64(1000 + i), TimeoutHeight: 0, Proof: sim.ProofHash([]byte("other")), Type: pb.IBTP_INTERCHAIN}
+					if i%3 == 2 {
+						proof = nil
+					}
+					tx := w.IBTP(pr.srcKey, ib, proof)
+					desc := fmt.Sprintf("storm: IBTP %s->%s with a proof that does not verify (remote)", pr.from, pr.to)
+					if (i+flip)%2 == 0 {
+						tx.Signature[(flip+i)%len(tx.Signature)] ^= 0x40
+						tx.TransactionHash = tx.Hash()
+						desc = fmt.Sprintf("storm: IBTP %s->%s with a proof that does not verify and a flipped signature byte (remote)", pr.from, pr.to)
+					}
+					b.txs = append(b.txs, &txSpec{tx: tx, kind: "ibtp-badproof", desc: desc, victim: true})
+				}
+			}
 			g.kinds["signature-storm"]++
 		}
 		for _, s := range b.txs {
